@@ -9,6 +9,7 @@ import (
 	"net/url"
 	"strings"
 	"sync"
+	"time"
 
 	"github.com/fullstorydev/grpchan"
 	"github.com/fullstorydev/grpchan/httpgrpc"
@@ -395,7 +396,12 @@ func checkC12(e *core.Env) {
 			}
 			h = mux
 		} else {
-			s := httpgrpc.NewServer(httpgrpc.WithBasePath(base))
+			sopts := []httpgrpc.ServerOption{httpgrpc.WithBasePath(base)}
+			if r.Intn(4) == 0 {
+				// defaults first, the deployment's own setting after them: the option given last is the base path
+				sopts = []httpgrpc.ServerOption{httpgrpc.WithBasePath(pick(r, "/rpc/", "/defaults/v0/", "/")), httpgrpc.WithBasePath(base)}
+			}
+			s := httpgrpc.NewServer(sopts...)
 			if pan := guard(func() {
 				if r.Intn(3) == 0 {
 					// collected in a HandlerMap first, then copied to the server with ForEach
@@ -432,6 +438,33 @@ func checkC12(e *core.Env) {
 			err, pan := callName(cc, name, asStream)
 			judgeName(e, carrier, true, rs, name, asStream, err, pan, "base path "+base)
 			e.Eval(fmt.Sprintf("%s|%s|%v|%d", carrier, nameClass(name, rs), asStream, strings.Count(base, "/")), true)
+		}
+		// requests that other HTTP clients can send and the package's own client never does: a registered name
+		// with something more after it is not that method (whatever the answer is, no handler runs)
+		for k := 0; k < 4 && len(rs.all) > 0; k++ {
+			name := rs.all[r.Intn(len(rs.all))]
+			suffix := pick(r, "/", "/.", "/x", "//", "/%2e")
+			ct := httpgrpc.UnaryRpcContentType_V1
+			if rs.stream[name] {
+				ct = httpgrpc.StreamRpcContentType_V1
+			}
+			raw := "http://" + c.URL.Host + strings.TrimSuffix(base, "/") + name + suffix
+			hr, herr := http.NewRequest("POST", raw, strings.NewReader(""))
+			if herr != nil {
+				continue
+			}
+			hr.Header.Set("Content-Type", ct)
+			resp, derr := (&http.Client{Transport: c.Transport, Timeout: 20 * time.Second, CheckRedirect: func(*http.Request, []*http.Request) error { return http.ErrUseLastResponse }}).Do(hr)
+			code := 0
+			if derr == nil {
+				code = resp.StatusCode
+				io.Copy(io.Discard, resp.Body)
+				resp.Body.Close()
+			}
+			e.Eval(fmt.Sprintf("%s|raw-suffix|%s", carrier, suffix), true)
+			if got := rs.cs.take(); len(got) != 0 {
+				e.Violate(carrier+"/wrong-handler/raw-suffix", fmt.Sprintf("POST %s (the registered name %s followed by %q) ran a handler: %v (HTTP %d)", raw, name, suffix, got, code), map[string]any{"url": raw, "http_status": code, "handlers_run": got})
+			}
 		}
 		if i < 2 {
 			e.Sample(map[string]any{"carrier": carrier, "base_path": base, "registered": rs.all})
